@@ -556,7 +556,7 @@ impl AtomicPosition {
             return false;
         }
 
-        let mut capacity = self.capacity.load(Ordering::Acquire);
+        let capacity = self.capacity.load(Ordering::Acquire);
         // `prev` is the number of ns after `self.started` we last returned `true`
         let prev = self.prev.load(Ordering::Acquire);
         // `elapsed` is the number of ns since `self.started`
@@ -578,11 +578,17 @@ impl AtomicPosition {
         let (new, remainder) = ((diff / INTERVAL), (diff % INTERVAL));
         // We add `new` to `capacity`, subtract one for returning `true` from here,
         // then make sure it does not exceed a maximum of `MAX_BURST`.
-        capacity = Ord::min(MAX_BURST as u128, (capacity as u128) + (new as u128) - 1) as u8;
+        let new_capacity = (capacity as u128) + (new as u128) - 1;
+        // A full bucket does not save the remainder for later either, or a burst could
+        // exceed `MAX_BURST + 1` ticks.
+        let (capacity, prev) = match new_capacity >= MAX_BURST as u128 {
+            true => (MAX_BURST, elapsed),
+            false => (new_capacity as u8, elapsed - remainder),
+        };
 
         // Then, we just store `capacity` and `prev` atomically for the next iteration
         self.capacity.store(capacity, Ordering::Release);
-        self.prev.store(elapsed - remainder, Ordering::Release);
+        self.prev.store(prev, Ordering::Release);
         true
     }
 
